@@ -25,10 +25,12 @@ func c01Run(w *W) {
 	var recs []*drainRec
 	var runErr error
 	runState := 0
+	seenAtReturn := -1
 	if p.run != nil {
 		simrt.Spawn("runner:"+p.name, func() {
 			runState = 1
 			runErr = p.run(w.Ctx)
+			seenAtReturn = len(*p.seen)
 			runState = 2
 		})
 	}
@@ -77,6 +79,11 @@ func c01Run(w *W) {
 				w.Violate("duplicate", "duplicate:"+p.name, "%s delivered %d twice (got %v)", p.name, v, got)
 			}
 		}
+		return
+	}
+	if p.run != nil && runErr == nil && seenAtReturn >= 0 && seenAtReturn < len(p.expect) {
+		// callback-style constructs return "when all items have been processed"
+		w.Violate("returned-before-all-processed", "returned-before-all-processed:"+p.name, "%s returned nil when %d of %d items had been handed to the processing function (the rest ran afterwards)", p.name, seenAtReturn, len(p.expect))
 		return
 	}
 	if !sameMultiset(got, p.expect) {
